@@ -88,3 +88,156 @@ pub proof fn lemma_gzip_hdr_bounds(s: Seq<u8>)
         lemma_cstr_end_bounds(s, b);
     }
 }
+
+// ---- what the scanner must emit (C06): the chunk list as a function of the file ----
+/// A-DET for parse_idat: it is a function of its input (its verified contract in U7 says what an Ok result satisfies)
+pub struct IdatV { pub sizes: Seq<u32>, pub hdr: Seq<u8>, pub adler: u32, pub total: nat }
+pub uninterp spec fn idat_parse_spec(s: Seq<u8>) -> Option<(IdatV, Seq<u8>)>;
+
+pub enum ChunkV { Lit(nat), Def(ResV), Idat(IdatV, ResV) }
+pub struct Probe { pub start: int, pub chunk: ChunkV, pub next: int }
+
+pub open spec fn min_blocksize() -> nat { 1024 }
+pub open spec fn big(r: ResV) -> bool { r.pt.len() > min_blocksize() }
+
+/// what a successful probe at signature offset j emits: the literal ends at `start`, scanning resumes at `next`
+#[verifier::opaque]
+pub open spec fn probe(src: Seq<u8>, j: int, prev: int) -> Option<Probe> {
+    match sig_at(src, j) {
+        None => None,
+        Some(SigV::Zlib(_)) => match analyze_spec(src.skip(j + 2)) {
+            Some(r) => if big(r) { Some(Probe { start: j + 2, chunk: ChunkV::Def(r), next: j + 2 + r.size }) } else { None },
+            None => None,
+        },
+        Some(SigV::Gzip) => match gzip_hdr_len(src.skip(j)) {
+            None => None,
+            Some(h) => match analyze_spec(src.skip(j + h)) {
+                Some(r) => if big(r) { Some(Probe { start: j + h, chunk: ChunkV::Def(r), next: j + h + r.size }) } else { None },
+                None => None,
+            },
+        },
+        Some(SigV::Zip) => match zip_hdr_len(src.skip(j)) {
+            None => None,
+            Some(h) => match analyze_spec(src.skip(j + h)) {
+                Some(r) => if big(r) { Some(Probe { start: j + h, chunk: ChunkV::Def(r), next: j + h + r.size }) } else { None },
+                None => None,
+            },
+        },
+        Some(SigV::Idat) => if j < prev + 4 { None } else {
+            match idat_parse_spec(src.skip(j - 4)) {
+                None => None,
+                Some((d, p)) => match analyze_spec(p) {
+                    None => None,
+                    Some(r) => if d.total > min_blocksize() && r.size == p.len() {
+                        Some(Probe { start: j - 4, chunk: ChunkV::Idat(d, r), next: j - 4 + d.total })
+                    } else { None },
+                },
+            }
+        },
+    }
+}
+
+pub open spec fn scan_tail(src: Seq<u8>, prev: int) -> Seq<ChunkV> {
+    if prev < src.len() { seq![ChunkV::Lit((src.len() - prev) as nat)] } else { Seq::<ChunkV>::empty() }
+}
+
+/// THE SCANNER'S SPECIFICATION (C06): every offset is probed in order; an accepted probe emits the pending literal and
+/// the stream chunk and scanning resumes after it; a failed probe advances one byte
+#[verifier::opaque]
+pub open spec fn scan_spec(src: Seq<u8>, i: int, prev: int) -> Seq<ChunkV>
+    decreases src.len() - i
+{
+    if i < 0 || i + 1 >= src.len() { scan_tail(src, prev) } else {
+        match probe(src, i, prev) {
+            Some(p) => if i < p.next <= src.len() { seq![ChunkV::Lit((p.start - prev) as nat), p.chunk] + scan_spec(src, p.next, p.next) } else { scan_spec(src, i + 1, prev) },
+            None => scan_spec(src, i + 1, prev),
+        }
+    }
+}
+
+pub proof fn lemma_scan_skip(src: Seq<u8>, i: int, j: int, prev: int)
+    requires 0 <= i <= j, forall|k: int| i <= k < j && k < src.len() - 1 ==> sig_at(src, k) is None,
+    ensures scan_spec(src, i, prev) == scan_spec(src, j, prev),
+    decreases j - i
+{
+    reveal(scan_spec); reveal(probe);
+    if i < j {
+        if i + 1 >= src.len() {
+            // both sides are the tail
+            assert(scan_spec(src, j, prev) == scan_tail(src, prev));
+        } else {
+            assert(sig_at(src, i) is None);
+            lemma_scan_skip(src, i + 1, j, prev);
+        }
+    }
+}
+
+/// LEMMA C06: a probe that succeeds at the first signature offset that is still uncovered is part of the output
+pub proof fn lemma_c06_detected(src: Seq<u8>, i: int, prev: int, j: int)
+    requires 0 <= i <= j, j + 1 < src.len(),
+        forall|k: int| i <= k < j ==> probe(src, k, prev) is None,
+        probe(src, j, prev) is Some, j < probe(src, j, prev)->Some_0.next <= src.len(),
+    ensures ({
+        let p = probe(src, j, prev)->Some_0;
+        scan_spec(src, i, prev) == seq![ChunkV::Lit((p.start - prev) as nat), p.chunk] + scan_spec(src, p.next, p.next)
+    }),
+    decreases j - i
+{
+    reveal(scan_spec);
+    if i < j { lemma_c06_detected(src, i + 1, prev, j); }
+}
+
+pub proof fn lemma_probe_zlib(f: Seq<u8>, j: int, prev: int)
+    requires sig_at(f, j) matches Some(SigV::Zlib(_)),
+    ensures
+        analyze_spec(f.skip(j + 2)) is Some && big(analyze_spec(f.skip(j + 2))->Some_0) ==>
+            probe(f, j, prev) == Some(Probe { start: j + 2, chunk: ChunkV::Def(analyze_spec(f.skip(j + 2))->Some_0), next: j + 2 + analyze_spec(f.skip(j + 2))->Some_0.size }),
+        !(analyze_spec(f.skip(j + 2)) is Some && big(analyze_spec(f.skip(j + 2))->Some_0)) ==> probe(f, j, prev) is None,
+{ reveal(probe); }
+
+pub proof fn lemma_probe_gzip(f: Seq<u8>, j: int, prev: int)
+    requires sig_at(f, j) == Some(SigV::Gzip),
+    ensures
+        gzip_hdr_len(f.skip(j)) is None ==> probe(f, j, prev) is None,
+        gzip_hdr_len(f.skip(j)) matches Some(h) ==> ({
+            let a = analyze_spec(f.skip(j + h));
+            if a is Some && big(a->Some_0) { probe(f, j, prev) == Some(Probe { start: j + h, chunk: ChunkV::Def(a->Some_0), next: j + h + a->Some_0.size }) }
+            else { probe(f, j, prev) is None } }),
+{ reveal(probe); }
+
+pub proof fn lemma_probe_zip(f: Seq<u8>, j: int, prev: int)
+    requires sig_at(f, j) == Some(SigV::Zip),
+    ensures
+        zip_hdr_len(f.skip(j)) is None ==> probe(f, j, prev) is None,
+        zip_hdr_len(f.skip(j)) matches Some(h) ==> ({
+            let a = analyze_spec(f.skip(j + h));
+            if a is Some && big(a->Some_0) { probe(f, j, prev) == Some(Probe { start: j + h, chunk: ChunkV::Def(a->Some_0), next: j + h + a->Some_0.size }) }
+            else { probe(f, j, prev) is None } }),
+{ reveal(probe); }
+
+pub proof fn lemma_probe_idat(f: Seq<u8>, j: int, prev: int)
+    requires sig_at(f, j) == Some(SigV::Idat),
+    ensures
+        j < prev + 4 ==> probe(f, j, prev) is None,
+        j >= prev + 4 && idat_parse_spec(f.skip(j - 4)) is None ==> probe(f, j, prev) is None,
+        j >= prev + 4 && idat_parse_spec(f.skip(j - 4)) is Some ==> ({
+            let d = idat_parse_spec(f.skip(j - 4))->Some_0.0; let p = idat_parse_spec(f.skip(j - 4))->Some_0.1;
+            let a = analyze_spec(p);
+            if a is Some && d.total > min_blocksize() && a->Some_0.size == p.len() {
+                probe(f, j, prev) == Some(Probe { start: j - 4, chunk: ChunkV::Idat(d, a->Some_0), next: j - 4 + d.total }) }
+            else { probe(f, j, prev) is None } }),
+{ reveal(probe); }
+
+pub proof fn lemma_scan_reject(f: Seq<u8>, j: int, prev: int)
+    requires 0 <= j, j + 1 < f.len(), probe(f, j, prev) is None,
+    ensures scan_spec(f, j, prev) == scan_spec(f, j + 1, prev),
+{ reveal(scan_spec); }
+
+pub proof fn lemma_scan_end(f: Seq<u8>, i: int, prev: int)
+    requires 0 <= i, forall|k: int| i <= k < f.len() - 1 ==> sig_at(f, k) is None,
+    ensures scan_spec(f, i, prev) == scan_tail(f, prev),
+    decreases f.len() - i
+{
+    reveal(scan_spec); reveal(probe);
+    if i + 1 < f.len() { lemma_scan_end(f, i + 1, prev); }
+}
